@@ -39,6 +39,7 @@ static uint64_t udivmod(uint64_t n, uint64_t d, uint64_t* rem)
 }
 uint64_t __udivdi3(uint64_t n, uint64_t d) { return udivmod(n, d, 0); }
 uint64_t __umoddi3(uint64_t n, uint64_t d) { uint64_t r; udivmod(n, d, &r); return r; }
+uint64_t __udivmoddi4(uint64_t n, uint64_t d, uint64_t* rem) { return udivmod(n, d, rem); }
 int64_t __divdi3(int64_t n, int64_t d) { int neg = (n < 0) != (d < 0); uint64_t q = udivmod(n < 0 ? -(uint64_t)n : (uint64_t)n, d < 0 ? -(uint64_t)d : (uint64_t)d, 0); return neg ? -(int64_t)q : (int64_t)q; }
 int64_t __moddi3(int64_t n, int64_t d) { uint64_t r; udivmod(n < 0 ? -(uint64_t)n : (uint64_t)n, d < 0 ? -(uint64_t)d : (uint64_t)d, &r); return n < 0 ? -(int64_t)r : (int64_t)r; }
 
@@ -80,6 +81,7 @@ void vp_guard_free(uint8_t* p, size_t n) { (void)p; (void)n; }
 uint8_t* vp_heap(size_t n) { static uint8_t* cur; static size_t left; n = (n + 15) & ~(size_t)15; if (!n) n = 16; if (left < n) { size_t c = n > (1u << 20) ? n : (1u << 20); cur = vp_map(c); left = c; } uint8_t* p = cur; cur += n; left -= n; return p; }
 void vp_heap_free(uint8_t* p) { (void)p; }
 int vp_try(void (*fn)(void*), void* arg) { fn(arg); return 0; }
+void vp_watchdog_start(void) { }      /* the orchestrator limits the CPU time of this build's processes instead */
 void vp_curop(const char* a, const char* b, const char* c, uint64_t n) { (void)a; (void)b; (void)c; (void)n; }
 void vp_yield(uint64_t r) { (void)r; }
 
